@@ -200,11 +200,19 @@ type schedJob struct {
 // its children for every scenario, and returns the subtree jobs.
 func planSched(scens []Scenario, depth int, judge func(sc *Scenario, st *engine.Stats, res *engine.JobResult)) ([]string, *engine.JobResult) {
 	pre := &engine.JobResult{}
-	var jobs []string
+	var jobs, first []string
+	defer func() { _ = first }()
 	for i := range scens {
 		sc := &scens[i]
 		fn := sc.execFn()
 		mode := parseMode(sc.Mode)
+		if mode.Unbounded || (!mode.Delay && mode.P >= 2) {
+			// iterative bounding: everything within one preemption first (cheap, and the first
+			// counterexample found is the simplest), then the scenario's full mode
+			b, _ := json.Marshal(schedJob{Scen: i, Mode: "P1M1", Prefix: ""})
+			first = append(first, string(b))
+			pre.Count("mode_P1M1_prepass_scenarios", 1)
+		}
 		engine.DeterminismGuard(fn, nil)
 		ex := engine.NewExplorer(fn, engine.Opts{P: mode.P, M: mode.M, Unbounded: mode.Unbounded, Delay: mode.Delay})
 		level := [][]int{nil}
@@ -237,8 +245,14 @@ func planSched(scens []Scenario, depth int, judge func(sc *Scenario, st *engine.
 			judge(sc, ex.St, pre)
 		}
 	}
-	return jobs, pre
+	return append(first, jobs...), pre
 }
+
+// schedJobCap bounds the executions of one subtree job (0 = none). No job on the unchanged tree comes
+// near it; it only keeps a check finite when a change to gofasta makes an unbounded space explode
+// (the violation is then found by the one-preemption pre-pass or within the cap, and the evidence says
+// exhaustive=false).
+var schedJobCap = 0
 
 func accountStats(sc *Scenario, st *engine.Stats, res *engine.JobResult) {
 	res.Evals += st.Execs
@@ -272,7 +286,7 @@ func execSched(scens []Scenario, job string, judge func(sc *Scenario, st *engine
 	key := fmt.Sprintf("%d|%s", j.Scen, j.Mode)
 	ex := explorers[key]
 	if ex == nil {
-		ex = engine.NewExplorer(sc.execFn(), engine.Opts{P: mode.P, M: mode.M, Unbounded: mode.Unbounded, Delay: mode.Delay})
+		ex = engine.NewExplorer(sc.execFn(), engine.Opts{P: mode.P, M: mode.M, Unbounded: mode.Unbounded, Delay: mode.Delay, MaxExecs: schedJobCap})
 		explorers[key] = ex
 	}
 	ex.St = engine.NewStats()
@@ -330,7 +344,10 @@ func canonJudge(prefix string) func(sc *Scenario, st *engine.Stats, res *engine.
 }
 
 // addSchedLayer wraps a property's Plan/Exec with a schedule layer over scens.
+var layerScens []func() []Scenario
+
 func addSchedLayer(p *Prop, prefix string, scens func() []Scenario) {
+	layerScens = append(layerScens, scens)
 	var cached []Scenario
 	get := func() []Scenario {
 		if cached == nil {
@@ -378,6 +395,9 @@ func schedPair(name string, mk func(n int) Call, extraSizes ...int) []Scenario {
 		}
 		c.NCPU = 2
 		mode := "D2M1"
+		if n <= 2 {
+			mode = "U" // tiny inputs (where a stage can finish before the next one looks): every interleaving
+		}
 		if n > 20 {
 			mode = "D1M0" // map orders are varied on the 4-record input; a 70-key map would multiply the runs by 140
 		}
